@@ -126,12 +126,19 @@ def renderClass : PtaSpec.RClass → String
 
 /-! ### handlers -/
 
+/-- `T=`: the message lines of the model (`messageLines` — already `sorted(set(...))`, so this is the literal list
+    `str(AssertionError).split("\n")`), each `enc`-encoded, joined by `|`; empty unless the verdict is a failure -/
+def renderTextLines : TextVerdict → String
+  | .fail lines => joinStr "|" (lines.map enc)
+  | _ => ""
+
 def handleRule (a : Args) : String :=
   let g := graphOf a
   let ops := (splitList ";" (a.get "ops")).filterMap parseRuleOp
   let table := parseMatchTable (a.get "mtab")
   let (v, i) := runRuleOps convertPartialMatch (tableMatches table) ops g
-  s!"M={renderVerdict v} I={i} {specAnswer a} C={renderClass (PtaSpec.classifyRule (ops.map toRCall))}"
+  let (t, _) := runRuleOpsText convertPartialMatch (tableMatches table) ops g
+  s!"M={renderVerdict v} I={i} {specAnswer a} C={renderClass (PtaSpec.classifyRule (ops.map toRCall))} T={renderTextLines t}"
 
 def handleQuery (a : Args) : String :=
   let g := graphOf a
@@ -268,7 +275,8 @@ def handleLayer (a : Args) : String :=
   let ops := (splitList ";" (a.get "lops")).filterMap (parseLayerRuleOp arch)
   let table := parseMatchTable (a.get "mtab")
   let (v, i) := runLayerRuleOps (tableMatches table) ops g
-  s!"M={renderLVerdict v} I={i} {layerSpecAnswer a} C={renderLRClass (PtaSpec.classifyLayerRule (ops.map (toLRCall arch)))}"
+  let (t, _) := runLayerRuleOpsText (tableMatches table) ops g
+  s!"M={renderLVerdict v} I={i} {layerSpecAnswer a} C={renderLRClass (PtaSpec.classifyLayerRule (ops.map (toLRCall arch)))} T={renderTextLines t}"
 
 def handleLayerOf (a : Args) : String :=
   let m : LayerMap := (splitList ";" (a.get "map")).filterMap fun rec =>
